@@ -1421,7 +1421,7 @@ def _str_to_owned(eng, st, args, ci):
 
 # ---------------------------------------------------------------- generic lazy iterator adaptors (map / filter / filter_map) and consumers
 
-_ITER_TYS = r'(FlatMap|std::iter::FlatMap|std::slice::Iter|core::slice::Iter|std::vec::IntoIter|Map|Filter|FilterMap|std::iter::Map|std::iter::Filter|std::iter::FilterMap|std::iter::Take|Take|TakeWhile|std::iter::TakeWhile|Rev|std::iter::Rev|Chars|std::str::Chars|Bytes|std::str::Bytes)'
+_ITER_TYS = r'(Skip|std::iter::Skip|FlatMap|std::iter::FlatMap|std::slice::Iter|core::slice::Iter|std::vec::IntoIter|Map|Filter|FilterMap|std::iter::Map|std::iter::Filter|std::iter::FilterMap|std::iter::Take|Take|TakeWhile|std::iter::TakeWhile|Rev|std::iter::Rev|Chars|std::str::Chars|Bytes|std::str::Bytes)'
 
 
 @intrinsic(r'^<' + _ITER_TYS + r'<.*> as (std::iter::)?Iterator>::(map|filter|filter_map)::<', 'Iterator::{map,filter,filter_map} (lazy adaptors; closure bodies = real MIR)', prio=1)
@@ -1567,6 +1567,34 @@ def _iter_rev(eng, st, args, ci):
     res = []
     for (s, items) in drain(eng, st, args[0]):
         cell = eng.ref_to(s, Seq(list(reversed(items))), False, 'rev')
+        res.append((s, 'ret', Tup([cell, bv_const(0, 'usize')], 'OwnedIter')))
+    return res
+
+
+@intrinsic(r'^<' + _ITER_TYS + r'<.*> as (std::iter::)?Iterator>::(any|all)::<', 'Iterator::{any,all} over a drained finite iterator (predicate = real MIR, merged per element)', prio=0)
+def _iter_any_generic(eng, st, args, ci):
+    it, f = args
+    is_any = '>::any::<' in ci.func
+    if isinstance(it, Ref):
+        it = eng.read_ref(st, it)
+    res = []
+    for (s, items) in drain(eng, st, it):
+        conds = [merged_call_value(eng, s, f, [x]) for x in items]
+        if is_any:
+            res.append((s, 'ret', z3.Or(conds) if conds else z3.BoolVal(False)))
+        else:
+            res.append((s, 'ret', z3.And(conds) if conds else z3.BoolVal(True)))
+    return res
+
+
+@intrinsic(r'^<' + _ITER_TYS + r'<.*> as (std::iter::)?Iterator>::skip$', 'Iterator::skip with a concrete count', prio=2)
+def _iter_skip(eng, st, args, ci):
+    n = args[1].concrete()
+    if n is None:
+        raise Unsupported('skip with a symbolic count')
+    res = []
+    for (s, items) in drain(eng, st, args[0]):
+        cell = eng.ref_to(s, Seq(list(items[n:])), False, 'skip')
         res.append((s, 'ret', Tup([cell, bv_const(0, 'usize')], 'OwnedIter')))
     return res
 
